@@ -103,8 +103,9 @@ class LazyRng(struct.PyTreeNode):
       return LazyRng(rng, suffix)
 
   def clear_suffix(self):
-    key = self.rng
-    return LazyRng(key, ())
+    # fold the static suffix into the key instead of dropping it: scopes with
+    # different paths must keep drawing different keys.
+    return LazyRng(self.as_jax_rng(), ())
 
 
 def _fold_in_static(
